@@ -194,6 +194,11 @@ func (g *group) wrapExcessAliases(grid [][]Candidate, descriptions []string) {
 		breakeven += width + 1
 	}
 
+	// Always keep one column, or the rows below would never be consumed.
+	if maxColumns == 0 && len(g.columnsWidth) > 0 {
+		maxColumns = 1
+	}
+
 	var rows [][]Candidate
 
 	for rowIndex := range grid {
